@@ -29,7 +29,7 @@ BUDGET = {"quick": 90, "thorough": 900}
 
 
 def cases(rng, tier):
-    n = 150 if tier == "quick" else 1500
+    n = 450 if tier == "quick" else 3000
     maxlen = 8 if tier == "quick" else 20
     for k in range(n):
         kind = ("region", "mesh", "field")[k % 3]
